@@ -819,6 +819,13 @@ def addr_rule(prog, rep, rule="ADDR"):
                 if col.kind == "col" and col.name == "id" and c.op in ("=", "==") and par.kind == "param":
                     o = s.binding_origin(par.index)
                     ok = o is not None and o.kind == "param" and o.name == "event_id"
+                if col.kind == "col" and col.name == "id" and c.op == "IN" and par.kind == "list" and getattr(s, "replicated_over", None) and s.bind_star is not None:
+                    # id IN (?, ?, ...) with one placeholder per element of a list that is the event id parameter itself, as a list
+                    # ([event_id] or list(event_id)): exactly the ids that were given
+                    star = [x.value for x in s.bind_star.elts if isinstance(x, ast.Starred)]
+                    if len(star) == 1 and norm(star[0]) == s.replicated_over and all(p_.kind == "param" for p_ in par.items):
+                        defs_ = [d for d in local_defs(s.fi, s.replicated_over) if isinstance(d, ast.Assign)]
+                        ok = bool(defs_) and len(defs_) == len(local_defs(s.fi, s.replicated_over)) and all(norm(d.value) in ("[event_id]", "list(event_id)", "[event_id, ]", "tuple(event_id)", "(event_id,)") for d in defs_)
             rep.check(ok and not s.stmt.has_or, rule, fn, f"{s.stmt.kind.upper()} events", "WHERE id = ?event_id", "the statement is not restricted to the event id it was given: it touches other events of the bucket", s.loc(), found=s.stmt.text())
     # peewee: helper _get_event (used by replace / get_event) and delete
     pcls = prog.cls("PeeweeStorage")
